@@ -215,7 +215,7 @@ func (c clientT) key() []byte {
 	return c.mac
 }
 
-var inPlaceReported bool
+var inPlaceReported, sumReported bool
 
 type savedFile struct {
 	text     []byte
@@ -376,7 +376,11 @@ func histories(r *lib.Run, rng *lib.Rand) (files []savedFile) {
 					txt, _ := os.ReadFile(fname)
 					toks := docTokens(txt)
 					obs := "unreadable"
-					if toks[0] == "doc" {
+					if toks[0] != "docok" && !sumReported {
+						sumReported = true
+						r.Viol("save-without-valid-checksum", "saveConfig wrote a lease file whose integrity verdict is "+toks[0], "")
+					}
+					if isDoc(toks[0]) {
 						obs = "-"
 						if len(toks) > 3 {
 							recs := append([]string{}, toks[3:]...)
@@ -472,7 +476,7 @@ func histories(r *lib.Run, rng *lib.Rand) (files []savedFile) {
 			sv2.h = b1.h
 			var nets []string // the validated subnets the handler carries, as it re-saved them
 			if rt, _ := os.ReadFile(f2); true {
-				if dt := docTokens(rt); dt[0] == "doc" {
+				if dt := docTokens(rt); isDoc(dt[0]) {
 					nets = dt[1:3]
 				}
 			}
